@@ -91,7 +91,13 @@
 //	package-level variables that are inputs of a segment (Config.InputVars: a flag read through
 //	*v): segfail.go, vocabulary Lib/GoSemFail.v.  Literals T{...} / x := &T{...} of structs with
 //	a Partial table entry inside segments, the elements of undenoted fields being checked inert
-//	and left out: partiallit.go.  Tests: segfail_test.go, internal/synthfail.
+//	and left out: partiallit.go.  Also in segfail.go: calls of table functions that may end in a
+//	no-return call (LibFunc.MayFail: bindFO / bindFT), Segment.State naming a local pointer to a
+//	table struct, state together with no-return calls (exitm of the state tuple), v, ok := m[k]
+//	on a written map (go_mapref_lookup), a pointer-valued field handed to a table function, jump
+//	statements after a no-return call dropped as dead code, f: make(...) / len / range as
+//	harmless uses of a written map held in a field.  Tests: segfail_test.go, internal/synthfail,
+//	internal/synthaux.
 //
 //	EFFECTFUL functions -- sequences of operating-system / library calls with control flow in
 //	between -- have an entry point of their own, TranslateWorld (world.go, world_stmt.go,
@@ -916,6 +922,9 @@ func (ft *funcTr) temp() string {
 }
 
 func (ft *funcTr) resultType() string {
+	if ft.segState() && ft.inLit == 0 && ft.fails && ft.t.cfg.FailMsgs {
+		return "(exitm " + ft.stateResultType() + ")" // segfail.go: state and no-return calls
+	}
 	if ft.segState() && ft.inLit == 0 {
 		return ft.stateResultType() // segstate.go
 	}
@@ -1697,6 +1706,9 @@ func (ft *funcTr) checkAliasing() {
 		}
 		if ft.partialLitAddrOK(e) {
 			return true // partiallit.go
+		}
+		if ft.segPtrFieldArgOK(e) {
+			return true // segfail.go
 		}
 		if u, isAddr := e.(*ast.UnaryExpr); isAddr && u.Op == token.AND && ft.opaqueVar(e) != nil {
 			if _, isArg := ft.up(e).(*ast.CallExpr); isArg {
